@@ -6,7 +6,7 @@
 //! Exit 0 = all histories agree, exit 1 = a query the reference keeps was re-executed.
 use std::sync::atomic::{AtomicUsize, Ordering};
 
-use pico::{Database, Storage};
+use pico::{Database, MemoRef, RetainedQuery, Storage, clear_retain, retain};
 use pico_macros::{Db, memo};
 
 static RUNS: [AtomicUsize; 3] = [AtomicUsize::new(0), AtomicUsize::new(0), AtomicUsize::new(0)];
@@ -16,18 +16,19 @@ struct TestDatabase {
     storage: Storage<Self>,
 }
 
-#[memo]
+#[memo(raw)]
 fn q0(_db: &TestDatabase) -> usize { RUNS[0].fetch_add(1, Ordering::SeqCst); 0 }
-#[memo]
+#[memo(raw)]
 fn q1(_db: &TestDatabase) -> usize { RUNS[1].fetch_add(1, Ordering::SeqCst); 1 }
-#[memo]
+#[memo(raw)]
 fn q2(_db: &TestDatabase) -> usize { RUNS[2].fetch_add(1, Ordering::SeqCst); 2 }
 
-fn call(db: &TestDatabase, i: usize) {
-    match i { 0 => { q0(db); } 1 => { q1(db); } _ => { q2(db); } }
+fn call(db: &TestDatabase, i: usize) -> MemoRef<usize> {
+    match i { 0 => q0(db), 1 => q1(db), _ => q2(db) }
 }
 
 const CAP: usize = 2;
+const OPS: usize = 10;
 
 fn run(history: &[usize]) -> Result<(), String> {
     for r in &RUNS { r.store(0, Ordering::SeqCst); }
@@ -42,36 +43,51 @@ fn run(history: &[usize]) -> Result<(), String> {
             if lru.len() > CAP { lru.remove(0); }
         }
     };
+    // temporarily retained queries (db.retain / db.clear_retain): guards per query
+    let mut guards: [Vec<RetainedQuery>; 3] = [vec![], vec![], vec![]];
     for step in history {
-        if *step == 3 {
-            db.run_garbage_collection();
-            collect(&mut lru, &mut pending);
-        } else {
-            call(&db, *step);
-            pending.push(*step);
+        match *step {
+            3 => { db.run_garbage_collection(); collect(&mut lru, &mut pending); }
+            0..=2 => { call(&db, *step); pending.push(*step); }
+            4..=6 => {
+                // retaining needs a reference to the result: obtained by calling the query
+                let q = *step - 4;
+                let r = call(&db, q);
+                pending.push(q);
+                guards[q].push(retain(&db, r));
+            }
+            _ => { let q = *step - 7; if let Some(g) = guards[q].pop() { clear_retain(&db, g); } }
         }
     }
     db.run_garbage_collection();
     collect(&mut lru, &mut pending);
-    for k in &lru {
+    // what must still be served from cache: the recent queries and the retained ones
+    let mut kept: Vec<usize> = lru.clone();
+    for q in 0..3 { if !guards[q].is_empty() && !kept.contains(&q) { kept.push(q); } }
+    let result = (|| {
+    for k in &kept {
         let before = RUNS[*k].load(Ordering::SeqCst);
         call(&db, *k);
         let after = RUNS[*k].load(Ordering::SeqCst);
         if after != before {
-            return Err(format!("history {history:?} (3 = collect), final collect: q{k} is among the {CAP} most recently called queries {lru:?} but was re-executed"));
+            return Err(format!("history {history:?} (0-2 call, 3 collect, 4-6 call+retain, 7-9 clear one retain), final collect: q{k} is among the {CAP} most recently called queries {lru:?} or retained, but was re-executed"));
         }
     }
     Ok(())
+    })();
+    // a RetainedQuery must not be dropped while retained
+    for g in guards.iter_mut() { for x in g.drain(..) { x.never_garbage_collect(); } }
+    result
 }
 
 fn main() {
     let mut n = 0usize;
-    for len in 0..=6usize {
-        let total = 4usize.pow(len as u32);
+    for len in 0..=5usize {
+        let total = OPS.pow(len as u32);
         for code in 0..total {
             let mut h = Vec::with_capacity(len);
             let mut c = code;
-            for _ in 0..len { h.push(c % 4); c /= 4; }
+            for _ in 0..len { h.push(c % OPS); c /= OPS; }
             n += 1;
             if let Err(m) = run(&h) {
                 println!("EVICTED: {m}");
